@@ -47,6 +47,10 @@ TABLE = {
    text='real Client/AsyncClient on a scripted transport: generated sequences of server EVENT/BINARY_EVENT/ACK/BINARY_ACK packets with colliding ids on several namespaces interleaved with client emits (with/without callbacks) and call(); token-matched accounting of handler invocations, ACKs sent (id, namespace, payload) and callback invocations; ack ids unique among outstanding ones; call() through scripted ACK/timeout orders on virtual waits',
    note='background handler tasks run in FIFO order at quiescent points (threaded client) or as real asyncio tasks on a virtual-time loop',
    tech='runtime monitoring: token-matched exactly-once accounting + ack model on the client side'),
+ 'C10': dict(cat='fault_enumeration',
+   text='fault enumeration on real Client/AsyncClient over a scripted transport: every failure pattern over {transport refusal, namespace refusal, loss during the attempt} up to length 3-4 (T/N up to 6) crossed with the full 108-point grid of delay/delay_max/randomization/attempts, abort by shutdown() at every back-off wait, every intentional cause of ending, and further losses after a successful reconnection; attempts are read at the scripted engine.io connect, back-off delays at the wait primitive (VirtualEvent / wrapped asyncio.wait_for on a virtual loop) and compared with the documented formula',
+   note='jitter is judged as a range; the thread-schedule window between connect() returning in the reconnect thread and the task reference being cleared is outside the quantifier; one known finding (stale reconnect task after an unsuccessful effort) pinned by the suite',
+   tech='runtime monitoring: fault enumeration with scripted transport, back-off oracle on virtual waits'),
 }
 # filled in as checks are built; see bottom of file for the not-built reason
 
